@@ -7,6 +7,7 @@ CONSTANTS
  TagDels = {1}
  SubjSel = {"ror"}
  Spells = {"dig"}
+ Dopts = {"check"}
  MaxOps = 3
  MaxConc = 2
  SameSubject = TRUE
